@@ -58,6 +58,7 @@ type c16Opts struct {
 	ETag    bool   `json:"set_etag"`
 	Expires bool   `json:"expires"`
 	Cache   bool   `json:"cache_control"`
+	IOFS    bool   `json:"filesystem_is_io_fs,omitempty"` // StaticOptions.FileSystem = http.FS(os.DirFS(dir)) instead of Directory
 }
 
 type c16Expect struct {
@@ -123,6 +124,10 @@ type c16World struct {
 func c16Build(root string, o c16Opts) *c16World {
 	w := &c16World{f: flamego.NewWithLogger(io.Discard)}
 	so := flamego.StaticOptions{Directory: filepath.Join(root, "pub"), Prefix: o.Prefix, Index: o.Index, SetETag: o.ETag}
+	if o.IOFS {
+		so.Directory = filepath.Join(root, "does-not-exist")
+		so.FileSystem = http.FS(os.DirFS(filepath.Join(root, "pub")))
+	}
 	if o.Expires {
 		so.Expires = func() string { return "EXPIRES-VALUE" }
 	}
@@ -200,6 +205,11 @@ func c16Judge(w *c16World, o c16Opts, method, p, inm string) (bad, kind, class s
 		if !inside {
 			return fmt.Sprintf("200 response body %q is not the content of a regular file inside the directory", trunc(body)), "foreign-200", ""
 		}
+	}
+	if o.IOFS && want.Kind != "pass" && w.marker == 1 && spy.code == 299 {
+		// an io/fs file system refuses unclean names outright (fs.ValidPath); staying silent where a
+		// directory on disk would serve is allowed, serving where it would not is not
+		return "", "", "pass(io/fs stricter)"
 	}
 	switch want.Kind {
 	case "pass":
@@ -302,8 +312,9 @@ func c16Run(r *core.Run) {
 		}
 	}
 	opts = append(opts, c16Opts{ETag: true}, c16Opts{Prefix: "/st", ETag: true, Expires: true, Cache: true}, c16Opts{Expires: true}, c16Opts{Cache: true, Index: "g.txt", ETag: true})
+	opts = append(opts, c16Opts{IOFS: true}, c16Opts{IOFS: true, Prefix: "/st", Index: "g.txt", ETag: true})
 	methods := []string{"GET", "HEAD", "POST", "PUT"}
-	r.Rule = "engine E: every request path of up to 3 (thorough 4) segments over {'', ., .., st, stx, pub, f.txt, d, e, h, secret.txt, index.html, %2e%2e, ..\\, f.txt+NUL, g.txt} with and without leading/trailing slash x methods {GET,HEAD,POST,PUT} x 14 option sets (5 prefix spellings x 2 index names, ETag/Expires/CacheControl combinations) x If-None-Match {absent, matching, other} over a real directory tree with files outside it; oracle = resolution model over an in-memory copy of the fixture + independent invariants (a 200 body is the content of a regular file inside the directory, no outside token ever appears, 'cannot serve' leaves exactly the rest of the chain's response); non-trivial = path containing '..', an empty segment, NUL, a prefix look-alike or a directory"
+	r.Rule = "engine E: every request path of up to 3 (thorough 4) segments over {'', ., .., st, stx, pub, f.txt, d, e, h, secret.txt, index.html, %2e%2e, ..\\, f.txt+NUL, g.txt} with and without leading/trailing slash x methods {GET,HEAD,POST,PUT} x 16 option sets (5 prefix spellings x 2 index names, ETag/Expires/CacheControl combinations, Directory vs an io/fs FileSystem) x If-None-Match {absent, matching, other} over a real directory tree with files outside it; oracle = resolution model over an in-memory copy of the fixture + independent invariants (a 200 body is the content of a regular file inside the directory, no outside token ever appears, 'cannot serve' leaves exactly the rest of the chain's response); non-trivial = path containing '..', an empty segment, NUL, a prefix look-alike or a directory"
 	r.Bounds["paths"] = len(paths)
 	r.Bounds["option_sets"] = len(opts)
 	r.Bounds["methods"] = methods
